@@ -6,4 +6,5 @@ let () =
   | [| _; "script"; f |] -> Script.run f
   | [| _; "judge"; f; o |] -> Judge.run f o
   | [| _; "api"; f; o |] -> Api.run f o
+  | [| _; "reglist"; f; o |] -> Reglist.run f o
   | _ -> prerr_endline "usage: gvmodel <subcommand>"; exit 2
